@@ -193,6 +193,20 @@ func init() {
 		fr.p.preemptPoint(fr.th)
 		return nil
 	}
+	// vQuiesce parks the caller until no other goroutine can run (all finished
+	// or blocked): lets a harness inspect the final state of spawned work.
+	harnessAPI["vQuiesce"] = func(fr *frame, fn *ssa.Function, args []Value) Value {
+		p, self := fr.p, fr.th
+		p.block(self, func() bool {
+			for _, t := range p.threads {
+				if t != self && p.runnable(t) {
+					return false
+				}
+			}
+			return true
+		})
+		return nil
+	}
 	harnessAPI["vObserve"] = func(fr *frame, fn *ssa.Function, args []Value) Value {
 		s := args[0].(StrV).String()
 		if len(args) > 1 {
